@@ -26,5 +26,13 @@ for name in sorted(os.listdir(os.path.join(HERE, "mc"))):
         except Exception as e:  # pragma: no cover
             failed += 1
             print("selftest FAILED: mc/%s: %r" % (name, e))
+try:
+    from mc.rules import base as _rb
+
+    _rb.selftest()
+    print("selftest ok: mc/rules/base.py")
+except Exception as e:  # pragma: no cover
+    failed += 1
+    print("selftest FAILED: mc/rules/base.py: %r" % (e,))
 os.chmod(os.path.join(HERE, "check"), 0o755)
 sys.exit(1 if failed else 0)
